@@ -179,8 +179,22 @@ def gen_random(rng):
             args += ["--unique"]
     elif rng.random() < 0.2:
         args += ["--unique"]
-    for _ in range(rng.choice((0, 1, 1, 2, 3))):
-        args += ["--sort-by", rng.choice([".k", ".k=DESC", ".v", ".v DESC", ".g", ".s=DESC", "(len .arr)", "1", ".k=asc"])]
+    has_sel = "--select" in args
+    for i in range(rng.choice((0, 1, 1, 2, 3))):
+        key = rng.choice([".k", ".k=DESC", ".v", ".v DESC", ".g", ".s=DESC", "(len .arr)", "1", ".k=asc"] + (["/k/", "/g/ DESC", "/k/=DESC"] if has_sel else []))
+        if rng.random() < 0.15:
+            # the key reaches its value through a --set macro or variable (also: a selected column through a macro)
+            import re as _re
+            m = _re.fullmatch(r"(.*?)(?:[ =](DESC|asc))?", key)
+            e, d = m.group(1), m.group(2) or ""
+            if rng.random() < 0.6:
+                args = ["--set", "@key%d=%s" % (i, e)] + args
+                key = "@key%d %s" % (i, d)
+            elif e.startswith("."):
+                args = ["--set", "fld%d=\"%s\"" % (i, e[1:])] + args
+                key = "(get . :fld%d) %s" % (i, d)
+            key = key.strip()
+        args += ["--sort-by", key]
     combos = []
     for _ in range(12):
         combos.append((rng.randint(0, 6), rng.choice([None, 0, 1, 2, 3, 4, 5, 6, 40, 2 ** 64 - 1, 2 ** 63]), rng.choice(MODES)))
